@@ -7,6 +7,7 @@ def dispatch (line : String) : String :=
   | "SP" :: toks => Drv.LaunchD.handleSplit toks
   | "WH" :: toks => Drv.LaunchD.handleWhich toks
   | "SC" :: toks => Drv.ScreenD.handle toks
+  | "AN" :: toks => Drv.AnsiD.handle toks
   | _ => "bad-op"
 
 partial def loop (h : IO.FS.Stream) (out : IO.FS.Stream) : IO Unit := do
